@@ -62,7 +62,7 @@ def check_mut(run, A):
     entries = public_callables(A.prog, SCOPE_MODULES_C20)
     run.floor('public callables under R-MUT', len(entries), 120)
     n_effects = 0
-    global_seen = set()
+    global_effects = {}
     for fn in entries:
         try:
             ctx = ev.entry(fn)
@@ -76,16 +76,7 @@ def check_mut(run, A):
                 # module-level objects (caches, registries) mutated by a call: hidden state shared by all later calls / objects
                 for a in tv.alias:
                     if a and a[0] == 'global':
-                        key = (a[1], a[2], c.fn.qual)
-                        if key not in global_seen:
-                            global_seen.add(key)
-                            memo = a[2].startswith('<results memoised')
-                            run.violation('R-STATE', f'{c.fn.qual} mutates {"a memoised result" if memo else "module-level object"} {a[2]}', c.fn.loc(node),
-                                          (f'`{norm_stmt(node) if node is not None else kind}` writes into an array returned by a memoising function ({a[2][1:-1]}): every later call with '
-                                           f'equal arguments receives the SAME, now modified, object - results depend on the history of earlier calls' if memo else
-                                           f'`{norm_stmt(node) if node is not None else kind}` writes into the module global `{a[1]}.{a[2]}`: results depend on the history of earlier calls '
-                                           f'(e.g. a cache keyed on part of the configuration is shared between objects)'),
-                                          construct=f'R-STATE::{c.fn.qual}::global-mutation::{a[2]}', path=c.chain())
+                        global_effects.setdefault((a[1], a[2], c.fn.qual), []).append((c, node, kind))
                 if kind.startswith('container'):
                     # list / dict methods that change their receiver: the function's own ** dict is its own; a VALUE taken out of it, or a list / dict parameter, is the caller's
                     for a in tv.alias:
@@ -121,6 +112,7 @@ def check_mut(run, A):
             run.unresolved('R-MUT', f'{fn.qual} may mutate {root}', c.fn.loc(node), f'{kind} in {where} on a value that may alias `{root}` through an unmodelled operation')
         if not bad:
             run.ok('R-MUT', fn.qual, fn.loc(), 'no in-place effect reaches a parameter or stored field')
+    report_global_effects(run, global_effects)
     run.count('in-place effects examined', n_effects)
     # positive example that must match on every run: set_snr mutates N
     pos = [i for i in run.items if i['rule'] == 'R-MUT' and 'listed exception' in i['instance']]
@@ -128,11 +120,40 @@ def check_mut(run, A):
         raise AnalysisError('R-MUT positive control (set_snr mutating N in place) was not recognised')
 
 
+def report_global_effects(run, effects):
+    """effects: (module, object, function) -> [(context, AST node, kind)] in-place effects that reach a module-level object.  A keyed store `TABLE[key] = value` whose value is computed from
+    the key alone is a memo of a pure function (history-free); a value that depends on something the key ignores, an identity / rounded key, and every other kind of effect (a slot
+    overwritten, an attribute of a shared object set, a shared array written) make later results depend on earlier calls (pbv/cachekey.py)"""
+    from ..cachekey import table_effect_verdict
+    for (modname, obj, qual), effs in sorted(effects.items(), key=lambda kv: kv[0]):
+        memo = obj.startswith('<results memoised')
+        worst = None
+        for (c, node, kind) in effs:
+            v = None if memo else table_effect_verdict(c.fn, node, obj)
+            if v is None:
+                v = ('violation', None)
+            if worst is None or {'ok': 0, 'unresolved': 1, 'violation': 2}[v[0]] > {'ok': 0, 'unresolved': 1, 'violation': 2}[worst[0][0]]:
+                worst = (v, c, node, kind)
+        (verdict_, why), c, node, kind = worst
+        stmt = norm_stmt(node) if node is not None else kind
+        if verdict_ == 'ok':
+            run.ok('R-STATE', f'{qual} fills the module-level table {obj}', c.fn.loc(node), f'`{stmt}`: {why} - a memo of a pure function')
+        elif verdict_ == 'unresolved':
+            run.unresolved('R-STATE', f'{qual} fills the module-level table {obj}', c.fn.loc(node), f'`{stmt}`: {why}')
+        else:
+            run.violation('R-STATE', f'{qual} mutates {"a memoised result" if memo else "module-level object"} {obj}', c.fn.loc(node),
+                          (f'`{stmt}` writes into an array returned by a memoising function ({obj[1:-1]}): every later call with '
+                           f'equal arguments receives the SAME, now modified, object - results depend on the history of earlier calls' if memo else
+                           f'`{stmt}` writes into the module global `{modname}.{obj}`: results depend on the history of earlier calls '
+                           + (f'({why})' if why else '(state that is overwritten, or an object shared through it that is changed, is seen by every later call)')),
+                          construct=f'R-STATE::{qual}::global-mutation::{obj}', path=c.chain())
+
+
 def check_module_state(run, A, module_prefixes):
     """R-STATE restricted to some modules (shared with the properties that need the functions of these modules to be pure functions of their arguments): no public callable
     reaches an in-place effect on a module-level object"""
     ev = A.ev
-    seen = set()
+    effects = {}
     n = 0
     for fn in public_callables(A.prog, SCOPE_MODULES_C20):
         if not any(fn.mod.name == p.rstrip('.') or fn.mod.name.startswith(p) for p in module_prefixes):
@@ -147,14 +168,8 @@ def check_module_state(run, A, module_prefixes):
                 for a in tv.alias:
                     if a and a[0] == 'global' and not a[2].startswith('<results memoised'):
                         n += 1
-                        key = (a[1], a[2], c.fn.qual)
-                        if key in seen:
-                            continue
-                        seen.add(key)
-                        run.violation('R-STATE', f'{c.fn.qual} mutates module-level object {a[2]}', c.fn.loc(node),
-                                      f'`{norm_stmt(node) if node is not None else kind}` writes into the module global `{a[1]}.{a[2]}`: the result of a later call depends on the calls made '
-                                      f'before it (a cache keyed on the identity of an array, or on part of the configuration, returns what was computed for other content)',
-                                      construct=f'R-STATE::{c.fn.qual}::global-mutation::{a[2]}', path=c.chain())
+                        effects.setdefault((a[1], a[2], c.fn.qual), []).append((c, node, kind))
+    report_global_effects(run, effects)
     run.count('effects on module-level objects examined', n)
 
 
@@ -188,9 +203,25 @@ def check_instance_tables(run, A, module_prefixes):
                              and isinstance(x.ctx, _ast.Load)]
                     n += 1
                     if writes and len(reads) > len(writes):
-                        run.violation('R-STATE', f'{m.qual}: a table created in __init__ is filled and read while results are computed', m.loc(writes[0]),
-                                      f'`self.{name}` is a lookup table that {m.name} fills and reads: what is computed for one entry (class, frequency, call) is handed to later entries that '
-                                      f'hit the same cell - the result depends on the order in which the entries are visited and on earlier calls', construct=f'R-STATE::{m.qual}::instance-table::{name}')
+                        # is it a memo of a pure function of the key?  (pbv/cachekey.py; the object's own attributes are constants of its table)
+                        from ..cachekey import keyed_stores, verdict as key_verdict
+                        self_name = m.params[0] if m.params else 'self'
+                        stores = keyed_stores(m.node, lambda x: isinstance(x, _ast.Attribute) and x.attr == name and isinstance(x.value, _ast.Name) and x.value.id == self_name)
+                        covered = {id(y) for st_, _k, _v in stores for y in _ast.walk(st_)}
+                        verdicts = [key_verdict(m.node, k_, v_, self_name=self_name, instance_config=True, methods={mm.name: mm.node for mm in cls.methods.values()}) for _st, k_, v_ in stores]
+                        if any(id(w) not in covered for w in writes):
+                            verdicts.append(('unresolved', 'the table is also filled by a statement that is not a keyed store `table[key] = value`'))
+                        worst = max(verdicts, key=lambda v_: {'ok': 0, 'unresolved': 1, 'violation': 2}[v_[0]])
+                        what = f'{m.qual}: a table created in __init__ is filled and read while results are computed'
+                        if worst[0] == 'ok':
+                            run.ok('R-STATE', what, m.loc(writes[0]), f'`self.{name}`: {worst[1]} - a memo of a pure function')
+                        elif worst[0] == 'unresolved':
+                            run.unresolved('R-STATE', what, m.loc(writes[0]), f'`self.{name}`: {worst[1]}')
+                        else:
+                            run.violation('R-STATE', what, m.loc(writes[0]),
+                                          f'`self.{name}` is a lookup table that {m.name} fills and reads: what is computed for one entry (class, frequency, call) is handed to later entries that '
+                                          f'hit the same cell - the result depends on the order in which the entries are visited and on earlier calls ({worst[1]})',
+                                          construct=f'R-STATE::{m.qual}::instance-table::{name}')
     run.count('tables created in constructors examined', n)
 
 
@@ -349,7 +380,12 @@ def check_state(run, A):
                 ctx = ev.entry(fn)
                 bv = ev.eval(base, ctx)
                 roots = {a for a in bv.alias} | ({('obj', bv.obj.origin)} if bv.obj is not None else set())
-                if bv.obj is not None and str(bv.obj.origin).startswith('new '):
+                shared = sorted(a[-1] for a in bv.alias if a and (a[0] == 'global' or (a[0] == 'maybe' and len(a) > 1 and a[1] == 'global')))
+                if shared:
+                    run.violation('R-STATE', f'{fn.qual} mutates module-level object {shared[0]}', fn.loc(e.node),
+                                  f'`{norm_stmt(e.node)}` sets an attribute of an object that is kept in the module global `{shared[0]}`: every later user of that entry sees the change '
+                                  f'- results depend on the history of earlier calls', construct=f'R-STATE::{fn.qual}::global-mutation::{shared[0]}')
+                elif bv.obj is not None and str(bv.obj.origin).startswith('new '):
                     run.ok('R-STATE', f'{fn.qual} sets {attr} on a fresh object', fn.loc(e.node))
                 else:
                     run.unresolved('R-STATE', f'{fn.qual} sets {attr} on non-self object', fn.loc(e.node), norm_stmt(e.node))
